@@ -79,3 +79,16 @@ Proof.
   apply existsb_exists in E as [it [Hit Hm]]. apply memb_In in Hm. apply moved_items_In in Hm as [_ [Hn _]].
   elim Hn. now apply H.
 Qed.
+
+(* the name the inserted block tests is imported in the leading import block, hence bound before every block *)
+From MT Require Import ConfineTcName.
+Theorem tc_name_bound :
+  forall stub src applied out,
+    confine stub src applied = Some out -> tc_ready out = true /\ tc_before out = true.
+Proof.
+  intros stub src applied out Hc. apply confine_Some in Hc as [_ ->].
+  assert (R : tc_ready (confine_with (moved_items stub src) applied) = true).
+  { apply confine_tc_ready. intros it Hit. apply moved_not_runtime_module in Hit.
+    unfold runtime_module in Hit. now apply orb_false_iff in Hit as [Hit _]. }
+  split; [exact R | now apply tc_ready_before].
+Qed.
